@@ -353,6 +353,82 @@ def find_loop(fn, var):
     raise Unsupported(f"{fn.name}: no loop over {var}")
 
 
+def translate_make_mapping_each(tree):
+    """the reference branch of FciGraph.make_mapping_each (fci_graph.py): mask loops, admission test, the two reversed
+    loops accumulating the parity - matched statement by statement; helper names, lists, the `not in` guard and the
+    loop directions are read from the source"""
+    cdef = next((n for n in tree.body if isinstance(n, ast.ClassDef) and n.name == "FciGraph"), None)
+    fn = next((n for n in (cdef.body if cdef else []) if isinstance(n, ast.FunctionDef) and n.name == "make_mapping_each"), None)
+    if fn is None:
+        raise Unsupported("FciGraph.make_mapping_each not found")
+    branch = next((n for n in fn.body if isinstance(n, ast.If) and ast.unparse(n.test) == "use_accelerated_code"), None)
+    if branch is None:
+        raise Unsupported("make_mapping_each: no `if use_accelerated_code` branch")
+    st = list(branch.orelse)
+    src = [ast.unparse(x) for x in st]
+
+    def need(cond, what):
+        if not cond:
+            raise Unsupported("make_mapping_each: reviewed shape broken at " + what)
+    need(len(st) == 6, "statement count")
+    need(src[0] == "dag_mask = 0" and src[2] == "undag_mask = 0" and src[4] == "count = 0", "initialisations")
+    l1, l2, l3 = st[1], st[3], st[5]
+    need(isinstance(l1, ast.For) and ast.unparse(l1.iter) in ("dag", "undag") and len(l1.body) == 1 and isinstance(l1.body[0], ast.If)
+         and not l1.body[0].orelse and len(l1.body[0].body) == 1, "first mask loop")
+    v1 = l1.target.id
+    g = l1.body[0]
+    need(isinstance(g.test, ast.Compare) and len(g.test.ops) == 1 and isinstance(g.test.ops[0], (ast.NotIn, ast.In))
+         and ast.unparse(g.test.left) == v1 and ast.unparse(g.test.comparators[0]) in ("dag", "undag"), "guard of the first mask loop")
+    guard_neg = isinstance(g.test.ops[0], ast.NotIn)
+    guard_list = ast.unparse(g.test.comparators[0])
+    a1 = g.body[0]
+    need(isinstance(a1, ast.Assign) and ast.unparse(a1.targets[0]) == "dag_mask" and isinstance(a1.value, ast.Call)
+         and [ast.unparse(x) for x in a1.value.args] == ["dag_mask", v1], "first mask update")
+    f1 = ast.unparse(a1.value.func)
+    need(isinstance(l2, ast.For) and ast.unparse(l2.iter) in ("dag", "undag") and len(l2.body) == 1, "second mask loop")
+    v2 = l2.target.id
+    a2 = l2.body[0]
+    need(isinstance(a2, ast.Assign) and ast.unparse(a2.targets[0]) == "undag_mask" and isinstance(a2.value, ast.Call)
+         and [ast.unparse(x) for x in a2.value.args] == ["undag_mask", v2], "second mask update")
+    f2 = ast.unparse(a2.value.func)
+    need(isinstance(l3, ast.For) and ast.unparse(l3.iter) == "range(length)" and len(l3.body) == 3, "string loop")
+    need(ast.unparse(l3.body[0]) == f"current = int(strings[{l3.target.id}])", "current")
+    need(ast.unparse(l3.body[1]) == "check = current & dag_mask == 0 and current & undag_mask ^ undag_mask == 0", "admission test")
+    body = l3.body[2]
+    need(isinstance(body, ast.If) and ast.unparse(body.test) == "check" and not body.orelse and len(body.body) == 5, "admitted block")
+    need(ast.unparse(body.body[0]) == "parity = 0", "parity initialisation")
+    loops = []
+    for lp in body.body[1:3]:
+        need(isinstance(lp, ast.For) and isinstance(lp.iter, ast.Call) and ast.unparse(lp.iter.func) == "reversed"
+             and ast.unparse(lp.iter.args[0]) in ("dag", "undag") and len(lp.body) == 2, "parity loop")
+        v = lp.target.id
+        p_, c_ = lp.body
+        need(isinstance(p_, ast.AugAssign) and isinstance(p_.op, ast.Add) and ast.unparse(p_.target) == "parity"
+             and isinstance(p_.value, ast.Call) and [ast.unparse(x) for x in p_.value.args] == ["current", v], "parity update")
+        need(isinstance(c_, ast.Assign) and ast.unparse(c_.targets[0]) == "current" and isinstance(c_.value, ast.Call)
+             and [ast.unparse(x) for x in c_.value.args] == ["current", v], "string update")
+        loops.append((ast.unparse(lp.iter.args[0]), ast.unparse(p_.value.func), ast.unparse(c_.value.func)))
+    need(ast.unparse(body.body[3]) == f"result[count, :] = ({l3.target.id}, current, parity % 2)", "stored entry")
+    need(ast.unparse(body.body[4]) == "count += 1", "count")
+    for name in (f1, f2, loops[0][1], loops[0][2], loops[1][1], loops[1][2]):
+        need(name in ("set_bit", "unset_bit", "count_bits_above"), f"helper {name}")
+    gcond = f"(!({guard_list}.contains {v1}))" if guard_neg else f"({guard_list}.contains {v1})"
+    return (
+        f"/-- `src/fqe/fci_graph.py`, `FciGraph.make_mapping_each` (line {fn.lineno}), reference branch: the two masks -/\n"
+        "def mme_masks (dag undag : List Int) : Int × Int :=\n"
+        f"  let dag_mask := {ast.unparse(l1.iter)}.foldl (fun dag_mask {v1} => if {gcond} then {f1} dag_mask {v1} else dag_mask) (0 : Int)\n"
+        f"  let undag_mask := {ast.unparse(l2.iter)}.foldl (fun undag_mask {v2} => {f2} undag_mask {v2}) (0 : Int)\n"
+        "  (dag_mask, undag_mask)\n\n"
+        "/-- the admission test and the two reversed loops for one string: `(target string, parity % 2)` -/\n"
+        "def mme_entry (current : Int) (dag undag : List Int) : Option (Int × Int) :=\n"
+        "  let masks := mme_masks dag undag\n"
+        "  if decide (pyAnd current masks.1 = (0 : Int)) && decide (pyXor (pyAnd current masks.2) masks.2 = (0 : Int)) then\n"
+        f"    let st := {loops[0][0]}.reverse.foldl (fun (st : Int × Int) i => ({loops[0][2]} st.1 i, st.2 + {loops[0][1]} st.1 i)) (current, (0 : Int))\n"
+        f"    let st := {loops[1][0]}.reverse.foldl (fun (st : Int × Int) i => ({loops[1][2]} st.1 i, st.2 + {loops[1][1]} st.1 i)) st\n"
+        "    some (st.1, pyMod st.2 (2 : Int))\n"
+        "  else none\n")
+
+
 def main():
     chunks = []
     known = {}
@@ -385,6 +461,8 @@ def main():
                       f"    `{acc}` (`none` = nothing); lookups in {tables} are rendered as their argument -/\n"
                       f"def {lean_name} {ps} : Option (Int × Int × Int) :=\n  {body}\n")
         summary.append((lean_name, False))
+    chunks.append(translate_make_mapping_each(ast.parse(open(os.path.join(REPO, "src/fqe/fci_graph.py")).read())))
+    summary.append(("mme_entry", False))
     hdr = ("/-\n  GENERATED by harness/translate/pyint.py from the Python sources of /repo (bitstring.py, util.py,\n"
            "  _fqe_control.py).  Do not edit: regenerated on every check run.\n-/\n"
            "import FqeVerif.Lemmas.PyPrelude\nset_option linter.unusedVariables false\nnamespace GenPy\nopen PyPrelude\n\n")
